@@ -330,6 +330,41 @@ def conc_cases(ctx, thorough):
     return out
 
 
+def realauth_cases(ctx, thorough):
+    """the REAL ServerAuthHandler (two assembled server fixtures over one storage): control login, then tunnel-typed
+    handshakes of the same client (client/tunnel_dialer.go sends one on every tunnel connection) on either node,
+    heartbeats, closes of the tunnel connections; ops: [0,n,c] open, [1,n,c,kind 0 control|1 tunnel|2 untyped] handshake,
+    [2,n,c] close, [3,n,c] heartbeat"""
+    rng = ctx.rng
+    out = [{"mode": "realauth", "tag": "tunnel-handshakes", "ops":
+            [[0, 1, 1], [1, 1, 1, 0], [3, 1, 1], [0, 1, 2], [1, 1, 2, 1], [0, 2, 3], [1, 2, 3, 1], [3, 1, 1], [2, 2, 3], [3, 1, 1], [2, 1, 2], [2, 1, 1]]},
+           {"mode": "realauth", "tag": "untyped-login-then-tunnel", "ops":
+            [[0, 2, 1], [1, 2, 1, 2], [0, 1, 2], [1, 1, 2, 1], [2, 1, 2], [3, 2, 1], [2, 2, 1]]},
+           {"mode": "realauth", "tag": "move-control-then-tunnel", "ops":
+            [[0, 1, 1], [1, 1, 1, 0], [0, 2, 2], [1, 2, 2, 0], [0, 1, 3], [1, 1, 3, 1], [2, 1, 1], [3, 2, 2], [2, 1, 3], [3, 2, 2]]}]
+    for _ in range(40 if thorough else 6):
+        ops, nextc, ctrl, tun = [], 1, None, []
+        for _ in range(rng.randrange(6, 14)):
+            r = rng.random()
+            if ctrl is None or r < 0.15:
+                n = rng.randrange(1, 3)
+                ops += [[0, n, nextc], [1, n, nextc, rng.choice([0, 0, 2])]]
+                ctrl = (n, nextc)
+                nextc += 1
+            elif r < 0.5:
+                n = rng.randrange(1, 3)
+                ops += [[0, n, nextc], [1, n, nextc, 1]]
+                tun.append((n, nextc))
+                nextc += 1
+            elif r < 0.75 and tun:
+                n, c = tun.pop(rng.randrange(len(tun)))
+                ops.append([2, n, c])
+            else:
+                ops.append([3, ctrl[0], ctrl[1]])
+        out.append({"mode": "realauth", "tag": "random", "ops": ops})
+    return out
+
+
 def is_state_phase(c):
     return any(t[0] in (4, 5, 6) for t in c["threads"])
 
@@ -448,12 +483,14 @@ def run(ctx, only_cases=None):
                             extra_obligations=SIDE_CONDITIONS)
     except vlib.Broken as b:
         broken = b   # keep going: evaluate the predicate on the real code first
-    all_cases = only_cases if only_cases is not None else load_corpus() + gen_cases(ctx, thorough) + conc_cases(ctx, thorough) + state_phases(ctx, thorough)
+    all_cases = only_cases if only_cases is not None else load_corpus() + gen_cases(ctx, thorough) + conc_cases(ctx, thorough) + state_phases(ctx, thorough) + realauth_cases(ctx, thorough)
     env = {"VERIF_C08_PAR": "32", "VERIF_REPO": vlib.REPO}
     all_outs = vlib.run_harness(binary, all_cases, timeout=1500, env=env)
     variant = all_outs[0]["variant"] if all_outs else None
-    cases = [c for c in all_cases if c["mode"] != "conc"]
-    outs = [o for c, o in zip(all_cases, all_outs) if c["mode"] != "conc"]
+    cases = [c for c in all_cases if c["mode"] not in ("conc", "realauth")]
+    outs = [o for c, o in zip(all_cases, all_outs) if c["mode"] not in ("conc", "realauth")]
+    rcases = [c for c in all_cases if c["mode"] == "realauth"]
+    routs = [o for c, o in zip(all_cases, all_outs) if c["mode"] == "realauth"]
     ccases = [c for c in all_cases if c["mode"] == "conc"]
     couts = [o for c, o in zip(all_cases, all_outs) if c["mode"] == "conc"]
     repaired = list(variant or [])[:4] == [1, 1, 1, 1]   # the interleaving model is the repaired code only
@@ -464,6 +501,15 @@ def run(ctx, only_cases=None):
         if not o["prop_ok"]:
             nfail += 1
             by_key.setdefault(o["prop_key"], []).append((c, o))
+    # the real ServerAuthHandler: location records vs the registered control connection
+    rby = {}
+    for c, o in zip(rcases, routs):
+        if not o["prop_ok"]:
+            nfail += 1
+            rby.setdefault(o["prop_key"], []).append((c, o))
+    for key, lst in sorted(rby.items()):
+        c, o = min(lst, key=lambda co: len(co[0]["ops"]))
+        ctx.violation(key, "%s (%d histories fail this way)" % (o["prop_msg"], len(lst)), {"case": c, "observed": o["steps"]})
     # concurrent phases: "a lookup never writes" and the state after the phase
     cby = {}
     for c, o in zip(ccases, couts):
@@ -555,7 +601,8 @@ def run(ctx, only_cases=None):
         samples.append({"case": ccases[k], "executed_schedule": couts[k]["sched"], "results": couts[k]["results"],
                         "final": couts[k]["final"], "prop_ok": couts[k]["prop_ok"]})
     ctx.coverage.update({
-        "evaluations": len(cases) + len(ccases), "distinct_nontrivial": len(nontrivial) + len(cnontrivial),
+        "evaluations": len(cases) + len(ccases) + len(rcases),
+        "real_auth_handler_histories": {"run": len(rcases), "expectations_checked": sum(o["checked"] for o in routs)}, "distinct_nontrivial": len(nontrivial) + len(cnontrivial),
         "concurrent_phases": {"replayed": len(ccases), "distinct_nontrivial": len(cnontrivial), "by_tag": ctags,
                               "compared_with_thread_model": repaired,
                               "lookups_checked_read_only": sum(1 for c in ccases for t in c["threads"] if t[0] == TH_FIND)},
@@ -569,7 +616,8 @@ def run(ctx, only_cases=None):
         "model_vs_impl_cases": len(terms), "model_vs_impl_mismatches": len(mism), "impl_property_failures": nfail,
         "impl_property_failures_by_key": {k: len(v) for k, v in by_key.items()},
         "code_variant_probed": dict(zip(["unregister_guard", "refresh_renews_index", "heartbeat_refreshes", "pointer_shape_accepted",
-                                         "index_test_and_write_is_one_cas"], variant or [])),
+                                         "index_test_and_write_is_one_cas", "client_state_service_atomic"], variant or [])),
+        "state_cas_by_backend": {b: max([o["variant"][5] for c, o in zip(ccases, couts) if c["backend"] == b and is_state_phase(c)] or [-1]) for b in BACKENDS},
         "index_cas_by_backend": {b: max([o["variant"][4] for c, o in zip(ccases, couts) if c["backend"] == b] or [-1]) for b in BACKENDS},
         "max_wallclock_lateness_ms": max([o["max_late_ms"] for o in outs] or [0]),
         "timing": {"ttl_ms": TTL_MS, "unit_ms": UNIT_MS, "margin_ms": MARGIN_MS},
